@@ -188,6 +188,7 @@ type ProcCase struct {
 	Picks    []int    `json:"picks"`
 	Hold     int      `json:"hold"` // 0: answer at once in arrival order, 1: plan decides per request, 2: always hold until quiescence
 	ExtraObs int      `json:"extraObs,omitempty"`
+	SlowObsMs int     `json:"slowObsMs,omitempty"` // extra observers let this much simulated time pass per trace (slow consumer: back-pressure on the tracer)
 	Events   []EvPlan `json:"events,omitempty"`
 	CancelAt int      `json:"cancelAt,omitempty"` // cancel when this many traces were observed (0 = never)
 	NoAnswer map[string]bool `json:"noAnswer,omitempty"`
@@ -221,6 +222,8 @@ type EvPlan struct {
 	Ref   string `json:"ref"`
 	After int    `json:"after"` // deliver after this many traces were observed
 	Own   bool   `json:"own"`   // from its own goroutine
+	Exact bool   `json:"exact,omitempty"` // (own) the scenario guarantees an order-independent outcome: the model applies it like a quiescent delivery
+	Last  bool   `json:"last,omitempty"` // (quiescent delivery) deliver only when no task request is pending
 	WhenListening int `json:"whenListening,omitempty"` // (own) wait until this many ActiveListeningTraces were observed
 }
 
@@ -331,12 +334,24 @@ func (c *ProcCase) Main() {
 
 	// additional observers (same tracer): they only record what they see
 	for i := 0; i < c.ExtraObs; i++ {
-		ch := proc.Tracer().SubscribeChannel(make(chan tracing.ITrace, (c.Buf+i)%5))
+		obuf := (c.Buf + i) % 5
+		if c.SlowObsMs > 0 {
+			obuf = 0
+		}
+		ch := proc.Tracer().SubscribeChannel(make(chan tracing.ITrace, obuf))
 		gi := i + 1
 		go func() {
 			for tr := range ch {
 				k, a, b := describe(tracing.Unwrap(tr))
 				L.AddG(gi, "o:"+k, a, b, 0)
+				if c.SlowObsMs > 0 && k == "eventobserved" {
+					// hold the tracer (and through it the catch event's run loop) up while events keep arriving
+					env.fault("slow-subscriber")
+					select {
+					case <-time.After(time.Duration(c.SlowObsMs) * time.Millisecond):
+					case <-stop:
+					}
+				}
 			}
 		}()
 	}
@@ -390,6 +405,9 @@ func (c *ProcCase) Main() {
 			if len(quiet) > 0 {
 				// choose between delivering the next event and answering a pending request
 				opt := env.pick(len(pending) + 1)
+				if quiet[0].Last && len(pending) > 0 {
+					opt = 0 // answer first: this event is meant for the listeners the tokens end up at
+				}
 				if len(pending) == 0 || opt == len(pending) {
 					ep := quiet[0]
 					quiet = quiet[1:]
@@ -544,7 +562,7 @@ func (c *ProcCase) Main() {
 		ei, ep := ei, ep
 		go func() {
 			// (bounded: if the instance comes to rest before that many traces were seen, deliver anyway)
-			for polls := 0; (int(ntraces.Get()) < ep.After || int(nlistening.Get()) < ep.WhenListening) && polls < 40; polls++ {
+			for polls := 0; (int(ntraces.Get()) < ep.After || int(nlistening.Get()) < ep.WhenListening) && polls < 400; polls++ {
 				select {
 				case <-time.After(time.Millisecond):
 				case <-stop:
@@ -552,6 +570,10 @@ func (c *ProcCase) Main() {
 				}
 			}
 			L.AddG(ei, "rev", ep.Kind, ep.Ref, 0)
+			if ep.Exact {
+				L.AddG(ei, "ev!", ep.Kind, ep.Ref, 0)
+			}
+			env.fault("event-from-own-goroutine")
 			if _, err := proc.ConsumeEvent(mkEvent(ep.Kind, ep.Ref)); err != nil {
 				L.AddG(ei, "ev-err", ep.Kind, err.Error(), 0)
 			}
